@@ -26,6 +26,26 @@ Proof.
     pose proof all_templates_ok_head as H. rewrite forallb_forall in H. apply H; exact Hin.
 Qed.
 
+Lemma all_scan_templates_ok : forallb tmpl_ok Gen.Templates.scan_templates = true.
+Proof. vm_compute. reflexivity. Qed.
+
+Lemma all_scan_templates_ok_head : forallb has_ok_head Gen.Templates.scan_templates = true.
+Proof. vm_compute. reflexivity. Qed.
+
+Lemma scan_templates_present : length Gen.Templates.scan_templates = 4%nat.
+Proof. reflexivity. Qed.
+
+Lemma all_scan_replies_valid : forall t v,
+  In t Gen.Templates.scan_templates -> inst t v ->
+  valid_json v = true /\ (hasPrefix ok_true_prefix v \/ hasPrefix ok_false_prefix v).
+Proof.
+  intros t v Hin Hi. split.
+  - apply (tmpl_ok_sound_proof t); [|exact Hi].
+    pose proof all_scan_templates_ok as H. rewrite forallb_forall in H. apply H; exact Hin.
+  - apply (has_ok_head_sound_proof t); [|exact Hi].
+    pose proof all_scan_templates_ok_head as H. rewrite forallb_forall in H. apply H; exact Hin.
+Qed.
+
 (* the reply of OUTPUT (no argument, JSON mode) before the repair: the duration is a raw-text
    hole in value position *)
 Definition output_template_before_fix : tmpl :=
